@@ -884,19 +884,19 @@ func BetweenExpr(query *Query, current Map, expr *sqlparser.BetweenExpr, opts ..
 	if err != nil {
 		return false, err
 	}
-	pointValue := fmt.Sprintf("%v", pointValueRaw)
-	fromValue := fmt.Sprintf("%v", from)
-	toValue := fmt.Sprintf("%v", to)
-	switch expr.IsBetween {
-	case true:
-		{
-			return (pointValue > fromValue) && (pointValue < toValue), nil
-		}
-	default:
-		{
-			return !((pointValue > fromValue) && (pointValue < toValue)), nil
-		}
+	fromValue, err := ValueOf(query, current, from)
+	if err != nil {
+		return false, err
 	}
+	toValue, err := ValueOf(query, current, to)
+	if err != nil {
+		return false, err
+	}
+	isBetween := compare.Compare(pointValueRaw, fromValue) >= 0 && compare.Compare(pointValueRaw, toValue) <= 0
+	if expr.IsBetween {
+		return isBetween, nil
+	}
+	return !isBetween, nil
 }
 
 func BinaryExpr(query *Query, current Map, expr *sqlparser.BinaryExpr, opts ...ExprOption) (*float64, error) {
